@@ -107,6 +107,15 @@ def backendPairsMismatch : List (Nat × Nat) :=
 def wzEnglishMismatch : List Nat :=
   (wzEnBase.filter fun r => descOf waEnBase r.1 != some r.2).map (·.1)
 
+/-- a clause that dispatches on builtin NAMES (ssa builder, back ends): as soon as it lists an English
+builtin name it lists exactly the Chinese names registered under the same builtin ids, and vice versa
+(clauses made of Chinese names only are language tests and are left alone) -/
+def builtinClauseClosed (c : List Nat) : Bool :=
+  !(builtinPairs.any fun p => c.contains p.1) ||
+  builtinPairs.all fun p => c.contains p.1 == c.contains p.2
+
+def builtinClausesClosed : Bool := kNameClauses.all builtinClauseClosed
+
 /-! ## normalising a tree dump (executable; used by the driver)
 
 Atoms `T:<Node.Field>:<id>` carry tokens, `I:<hex>` identifiers.  A Chinese keyword token with a
